@@ -212,6 +212,15 @@ CreateDisabling(id, c, d) ==
     /\ enabled' = FALSE /\ ret' = <<"id", id, "-">>
     /\ PK /\ UNCHANGED <<nextAuto, selfReg, procs, pprio, pworld, bad>>
 
+\* (c) the on_remove callback of the component being removed disables dispatching (e.g. pauses the game): it was
+\*     notified directly, exactly once; nothing is postponed, the world keeps no reference to it
+RemoveDisabling(e, c) ==
+    /\ "reentrant" \in Acts /\ "remove" \in Acts /\ enabled /\ "on_remove" \in Decl[c]
+    /\ e \in DOMAIN rows /\ TypeOf[c] \in DOMAIN rows[e] /\ rows[e][TypeOf[c]] = c
+    /\ Commit(Detach(W0, e, TypeOf[c]))
+    /\ enabled' = FALSE /\ ret' = <<"comp", 0, c>>
+    /\ PK /\ UNCHANGED <<nextAuto, selfReg, procs, pprio, pworld, bad>>
+
 \* --- remove_component(e, T): exact type first, else one of the subclass components --------------
 RemoveComponent(e, T) ==
     /\ "remove" \in Acts /\ QRoom(1)
@@ -452,7 +461,7 @@ Next == \/ (\E id \in Ids \cup {NoEnt}, cs \in CompSeqs : CreateEntity(id, cs))
         \/ (\E dt \in Dts, c \in Comps, e2 \in Ids : ProcessKiller(dt, c, e2))
         \/ (\E dt \in Dts, p \in Procs, T \in PTypes : ProcessRemover(dt, p, T))
         \/ (\E dt \in Dts, c \in Comps, e2 \in Ids : ProcessScheduler(dt, c, e2))
-        \/ (\E e \in Ids, c \in Comps : AddSelfRemoving(e, c))
+        \/ (\E e \in Ids, c \in Comps : AddSelfRemoving(e, c) \/ RemoveDisabling(e, c))
         \/ (\E id \in Ids, c \in Comps, d \in Comps : CreateDisabling(id, c, d))
         \/ (\E i \in 1..MaxQ : SetEnabledFault(i))
         \/ Clear
